@@ -1150,7 +1150,8 @@ class QuantityMeta(ClassWithDefinitionMeta):
         if not symbol:
             raise ValueError("'symbol' must not be an empty string.")
         if isinstance(define_as, Quantity):
-            if not isinstance(define_as, cls):
+            if not isinstance(define_as, cls) or \
+                    define_as.unit.qty_cls is not cls:
                 raise TypeError(f"Can't use an instance of "
                                 f"'{define_as.__class__.__name__}' as "
                                 f"equivalent of a '{cls.__name__}' unit.")
